@@ -56,13 +56,13 @@ THREAD_OPS = ["run", "run_observe_on_new_thread"]
 PLAN = ([("meta", n) for n in M.SCEN] + [("c05", o) for o in C05_OPS] + [("c06", o) for o in C06_OPS]
         + [("thread", o) for o in THREAD_OPS])
 # the weight of a kind in the rotation: every operator name is visited once per round
-PER_OP = {"quick": 48, "thorough": 1600}
+PER_OP = {"quick": 96, "thorough": 4800}
 REQUIRED = {"set:ops": len(PLAN),
             "set:ops_with_falsy": len(PLAN),
-            "falsy_values_reached": {"quick": 6000, "thorough": 200000},
-            "relabelled_runs_compared": {"quick": 4000, "thorough": 130000},
-            "model_outputs_compared": {"quick": 3000, "thorough": 100000},
-            "falsy_parameter_reached_output": {"quick": 300, "thorough": 10000},
+            "falsy_values_reached": {"quick": 12000, "thorough": 600000},
+            "relabelled_runs_compared": {"quick": 8000, "thorough": 400000},
+            "model_outputs_compared": {"quick": 6000, "thorough": 300000},
+            "falsy_parameter_reached_output": {"quick": 600, "thorough": 30000},
             "set:falsy_kinds_reached": 8}
 
 C05_DERIVED = {"map", "map_indexed", "find_index", "starmap"}
